@@ -540,7 +540,8 @@ func (w *world) blocked(what string) {
 		what, w.lastWait.Round(time.Millisecond), slowBound, fastBound, why)
 }
 
-func (w *world) checkState(ctx string) {
+// stateDiff compares the database with a model map; "" = equal.
+func (w *world) stateDiff(m map[string]string) string {
 	keys := make([]string, 0, nKeys+1)
 	for i := 0; i < nKeys; i++ {
 		keys = append(keys, keyOf(i))
@@ -548,23 +549,62 @@ func (w *world) checkState(ctx string) {
 	keys = append(keys, probeKey)
 	for _, k := range keys {
 		got, err := w.eng.Get([]byte(k))
-		want, has := w.committed[k]
+		want, has := m[k]
 		if err != nil {
 			if !errors.Is(err, engine.ErrKeyNotFound) && !strings.Contains(err.Error(), "not found") {
 				w.diverge("engine.Get(%s): %v", k, err)
 			}
 			if has {
-				w.fail("state_mismatch_after:"+ctx, "database key %s is missing, the model has %q", k, want)
+				return fmt.Sprintf("database key %s is missing, the model has %q", k, want)
 			}
 			continue
 		}
 		if !has {
-			w.fail("state_mismatch_after:"+ctx, "database key %s = %q, the model says it does not exist", k, got)
+			return fmt.Sprintf("database key %s = %q, the model says it does not exist", k, got)
 		}
 		if string(got) != want {
-			w.fail("state_mismatch_after:"+ctx, "database key %s = %q, the model has %q", k, got, want)
+			return fmt.Sprintf("database key %s = %q, the model has %q", k, got, want)
 		}
 	}
+	return ""
+}
+
+func (w *world) checkState(ctx string) {
+	if d := w.stateDiff(w.committed); d != "" {
+		w.fail("state_mismatch_after:"+ctx, "%s", d)
+	}
+}
+
+// callCtx is the request context of a service call: live, or dead before the
+// handler runs (the way gRPC presents a client that abandoned the call).
+func callCtx(kind string) (context.Context, context.CancelFunc) {
+	switch kind {
+	case "cancelled":
+		ctx, cancel := context.WithCancel(context.Background())
+		cancel()
+		return ctx, cancel
+	case "expired":
+		return context.WithDeadline(context.Background(), time.Now().Add(-time.Second))
+	}
+	return context.Background(), func() {}
+}
+
+// afterDeadCtx: a service call with a dead request context has returned on the
+// open transaction t. Its result is not judged; what it left behind is
+// observed. ended=true: the transaction is over (state and lock bookkeeping
+// updated by the caller); in the defect state (handle gone, transaction alive)
+// the case goes straight to the probe.
+func (w *world) afterDeadCtx(t *txn, what string) (present, active bool) {
+	_, present = w.reg.Get(t.id)
+	active = txActive(t.rec.tx)
+	if active && !present {
+		t.registered = false
+		t.state = stDropped
+		t.rec.how = "handle_dropped_by_" + what + "_with_dead_ctx"
+		w.abort = true
+		w.logf("  handle dropped, transaction still active")
+	}
+	return
 }
 
 // ---- lock-aware bookkeeping ------------------------------------------------
@@ -609,11 +649,16 @@ func (w *world) promote(t *txn) {
 		// that (legal, as is success). Whatever the goroutine inside Begin created or
 		// still creates is the implementation's to roll back: from here on it is a late begin.
 		t.rec.ghost, t.rec.how, t.rec.owner = true, "cancel_at_grant", nil
+		if strings.HasPrefix(t.giveUp, "dead_") {
+			t.rec.how = "begin_with_dead_ctx"
+		}
 		t.state = stCleaned
 		if w.cur[t.client] == t {
 			w.cur[t.client] = nil
 		}
-		w.features["cancel_at_grant_reported_error"] = true
+		if !strings.HasPrefix(t.giveUp, "dead_") {
+			w.features["cancel_at_grant_reported_error"] = true
+		}
 		w.logf("  client %d: begin gave up (%s): %v", t.client, t.giveUp, c.err)
 		return
 	}
@@ -649,7 +694,7 @@ func (w *world) promote(t *txn) {
 	}
 	t.state = stOpen
 	t.rec.how = "begin"
-	if t.giveUp != "" {
+	if t.giveUp != "" && !strings.HasPrefix(t.giveUp, "dead_") {
 		w.features["cancel_at_grant_succeeded"] = true
 	}
 	w.acquired(t.ro)
@@ -722,10 +767,17 @@ func (w *world) ctxFor(t *txn, deadlineMs int) (context.Context, context.CancelF
 	if deadlineMs > 0 {
 		return context.WithTimeout(ctx, time.Duration(deadlineMs)*time.Millisecond)
 	}
-	if t.giveUp != "" {
-		return context.WithCancel(ctx)
+	switch t.giveUp {
+	case "":
+		return ctx, func() {}
+	case "dead_cancelled":
+		c, cancel := context.WithCancel(ctx)
+		cancel()
+		return c, cancel
+	case "dead_expired":
+		return context.WithDeadline(ctx, time.Now().Add(-time.Second))
 	}
-	return ctx, func() {}
+	return context.WithCancel(ctx)
 }
 
 // issue starts the begin call of t in its own goroutine and returns once the
@@ -781,11 +833,17 @@ func (w *world) issue(t *txn, deadlineMs int) {
 
 type scanSink struct {
 	grpc.ServerStream
-	n int
+	n   int
+	ctx context.Context
 }
 
 func (s *scanSink) Send(*pb.TxScanResponse) error { s.n++; return nil }
-func (s *scanSink) Context() context.Context      { return context.Background() }
+func (s *scanSink) Context() context.Context {
+	if s.ctx != nil {
+		return s.ctx
+	}
+	return context.Background()
+}
 
 // object returns the transaction object a non-RPC client works with.
 func (w *world) object(t *txn) interfaces.Transaction {
@@ -829,7 +887,23 @@ func (w *world) doWriteTx(s Step) {
 		return
 	}
 	w.logf("put client %d (%s rw open) key=%s", t.client, t.path, keyOf(s.K))
-	w.useOpen(t, "put", keyOf(s.K), s.V)
+	if s.Ctx != "" && t.path == "svc" {
+		switch s.DeadAt {
+		case "op":
+			w.useOpen(t, "put", keyOf(s.K), s.V, s.Ctx)
+			if t.state == stOpen && !w.abort {
+				w.finish(t, "commit", false)
+			}
+		case "rollback":
+			w.useOpen(t, "put", keyOf(s.K), s.V, "")
+			w.finishDeadCtx(t, "rollback", s.Ctx)
+		default:
+			w.useOpen(t, "put", keyOf(s.K), s.V, "")
+			w.finishDeadCtx(t, "commit", s.Ctx)
+		}
+		return
+	}
+	w.useOpen(t, "put", keyOf(s.K), s.V, "")
 	w.faultNext = s.Fault
 	w.finish(t, "commit", s.Keep)
 	w.faultNext = false
@@ -883,6 +957,9 @@ func (w *world) doBegin(s Step) *txn {
 	if deadline == 0 && s.GiveUp != "" && t.path != "direct" {
 		t.giveUp = s.GiveUp
 		w.features["cancel_at_grant"] = true
+	} else if deadline == 0 && s.Ctx != "" && t.path != "direct" {
+		t.giveUp = "dead_" + s.Ctx
+		w.features["ctx_dead_at_begin"] = true
 	}
 	if old := w.cur[ci]; old != nil && old.closed() && old.rec != nil && (old.rec.tx != nil || old.id != "") {
 		w.retired = append(w.retired, old)
@@ -934,6 +1011,12 @@ func (w *world) doBegin(s Step) *txn {
 // if there is one (later use, repeated finish), including older handles whose
 // client has meanwhile begun a new transaction, else an open one.
 func (w *world) target(s Step) *txn {
+	if s.Ctx != "" {
+		// a dead request context only means something on the service path, and most on an open transaction
+		if ci, ok := pick(w.clientsWhere(func(t *txn) bool { return t != nil && t.state == stOpen && t.path == "svc" }), s.C); ok {
+			return w.cur[ci]
+		}
+	}
 	if s.Again {
 		var closed []*txn
 		for _, t := range w.cur {
@@ -977,7 +1060,7 @@ func (w *world) doUse(s Step) {
 	k, v := keyOf(s.K), s.V
 	w.logf("%s client %d (%s %s %s) key=%s", s.Op, ci, t.path, t.mode(), t.state, k)
 	if t.state == stOpen {
-		w.useOpen(t, s.Op, k, v)
+		w.useOpen(t, s.Op, k, v, s.Ctx)
 		return
 	}
 	// later use of a finished transaction: closed error, no side effect
@@ -989,17 +1072,23 @@ func (w *world) doUse(s Step) {
 		}
 	}
 	if t.path == "svc" {
+		ctx, cancel := callCtx(s.Ctx)
+		defer cancel()
 		switch s.Op {
 		case "put":
-			_, err = w.svc.TxPut(context.Background(), &pb.TxPutRequest{TransactionId: t.id, Key: []byte(k), Value: []byte(v)})
+			_, err = w.svc.TxPut(ctx, &pb.TxPutRequest{TransactionId: t.id, Key: []byte(k), Value: []byte(v)})
 		case "del":
-			_, err = w.svc.TxDelete(context.Background(), &pb.TxDeleteRequest{TransactionId: t.id, Key: []byte(k)})
+			_, err = w.svc.TxDelete(ctx, &pb.TxDeleteRequest{TransactionId: t.id, Key: []byte(k)})
 		case "get":
-			_, err = w.svc.TxGet(context.Background(), &pb.TxGetRequest{TransactionId: t.id, Key: []byte(k)})
+			_, err = w.svc.TxGet(ctx, &pb.TxGetRequest{TransactionId: t.id, Key: []byte(k)})
 		case "scan":
-			err = w.svc.TxScan(&pb.TxScanRequest{TransactionId: t.id}, &scanSink{})
+			err = w.svc.TxScan(&pb.TxScanRequest{TransactionId: t.id}, &scanSink{ctx: ctx})
 		}
-		svcGone(err)
+		if s.Ctx == "" {
+			svcGone(err)
+		} else {
+			w.features["ctx_dead_on_finished_handle"] = true // result not judged, only that nothing changes
+		}
 	} else {
 		obj := t.rec.tx
 		if obj == nil {
@@ -1028,8 +1117,12 @@ func (w *world) doUse(s Step) {
 	w.checkState("use_of_closed:" + s.Op + ":" + t.rec.how)
 }
 
-func (w *world) useOpen(t *txn, op, k, v string) {
+func (w *world) useOpen(t *txn, op, k, v, ctxKind string) {
 	var err error
+	if t.path == "svc" && ctxKind != "" {
+		w.useOpenDeadCtx(t, op, k, v, ctxKind)
+		return
+	}
 	if t.path == "svc" {
 		switch op {
 		case "put":
@@ -1081,6 +1174,62 @@ func (w *world) useOpen(t *txn, op, k, v string) {
 	}
 }
 
+// useOpenDeadCtx: TxPut/TxDelete/TxGet/TxScan on an open service transaction
+// with a request context that is already dead. The call may fail or succeed;
+// afterwards the transaction has either ended without a trace, or is still
+// open and reachable, and whether a write was buffered is read back through
+// the handle.
+func (w *world) useOpenDeadCtx(t *txn, op, k, v, ctxKind string) {
+	ctx, cancel := callCtx(ctxKind)
+	defer cancel()
+	var err error
+	switch op {
+	case "put":
+		_, err = w.svc.TxPut(ctx, &pb.TxPutRequest{TransactionId: t.id, Key: []byte(k), Value: []byte(v)})
+	case "del":
+		_, err = w.svc.TxDelete(ctx, &pb.TxDeleteRequest{TransactionId: t.id, Key: []byte(k)})
+	case "get":
+		_, err = w.svc.TxGet(ctx, &pb.TxGetRequest{TransactionId: t.id, Key: []byte(k)})
+	case "scan":
+		err = w.svc.TxScan(&pb.TxScanRequest{TransactionId: t.id}, &scanSink{ctx: ctx})
+	}
+	w.features["ctx_dead_at_op"] = true
+	w.logf("  %s with %s context returned %v", op, ctxKind, err)
+	present, active := w.afterDeadCtx(t, op)
+	if w.abort {
+		return
+	}
+	if !active {
+		// the server ended the transaction on this call: it was rolled back, no trace
+		t.registered = present
+		t.state = stCleaned
+		t.rec.how = op + "_with_dead_ctx_ended_tx"
+		w.released(t.rec.how, t)
+		w.checkState(t.rec.how)
+		w.settle()
+		return
+	}
+	if t.ro || (op != "put" && op != "del") {
+		return
+	}
+	// still open and reachable: was the write buffered? Read it back with a live context.
+	resp, gerr := w.svc.TxGet(context.Background(), &pb.TxGetRequest{TransactionId: t.id, Key: []byte(k)})
+	if gerr != nil {
+		w.diverge("TxGet after a %s with dead context: %v", op, gerr)
+	}
+	if op == "put" {
+		if resp.Found && string(resp.Value) == v {
+			vv := v
+			t.overlay[k] = &vv
+		}
+		return
+	}
+	if !resp.Found {
+		t.overlay[k] = nil // buffered, or the key exists nowhere (then the marker changes nothing)
+	}
+	_ = err
+}
+
 func (w *world) applyOverlay(t *txn) {
 	for k, v := range t.overlay {
 		if v == nil {
@@ -1106,9 +1255,98 @@ func (w *world) doFinish(s Step) {
 		w.counters["skipped_"+s.Op]++
 		return
 	}
+	if s.Ctx != "" && t.path == "svc" {
+		w.finishDeadCtx(t, s.Op, s.Ctx)
+		return
+	}
 	w.faultNext = s.Fault
 	w.finish(t, s.Op, s.Keep)
 	w.faultNext = false
+}
+
+// finishDeadCtx: CommitTransaction / RollbackTransaction through the service
+// with a request context that is already dead. Whatever the call answers, the
+// transaction must afterwards have ended (committed: all of it visible; rolled
+// back: no trace) or still be open and reachable through its handle, so that
+// its client or the server's cleanup can end it.
+func (w *world) finishDeadCtx(t *txn, op, ctxKind string) {
+	w.logf("%s client %d (svc %s %s id=%s) with %s context", op, t.client, t.mode(), t.state, t.id, ctxKind)
+	ctx, cancel := callCtx(ctxKind)
+	defer cancel()
+	var err error
+	ok := false
+	if op == "commit" {
+		var resp *pb.CommitTransactionResponse
+		resp, err = w.svc.CommitTransaction(ctx, &pb.CommitTransactionRequest{TransactionId: t.id})
+		ok = err == nil && resp != nil && resp.Success
+	} else {
+		var resp *pb.RollbackTransactionResponse
+		resp, err = w.svc.RollbackTransaction(ctx, &pb.RollbackTransactionRequest{TransactionId: t.id})
+		ok = err == nil && resp != nil && resp.Success
+	}
+	w.logf("  returned ok=%v err=%v", ok, err)
+	if t.state != stOpen {
+		// finished handle: the result is not judged, nothing may change
+		w.features["ctx_dead_on_finished_handle"] = true
+		w.checkState(op + "_with_dead_ctx:repeat_after_" + t.rec.how)
+		return
+	}
+	w.features["ctx_dead_at_"+op] = true
+	present, active := w.afterDeadCtx(t, op)
+	if w.abort {
+		return
+	}
+	if active {
+		// nothing happened to the transaction and its handle is still there. A client
+		// that was told "done" will not come back: then the server has to reap it.
+		if ok {
+			t.state = stGone
+			w.counters["dead_ctx_finish_reported_ok_but_tx_open"]++
+		}
+		return
+	}
+	// the transaction has ended: committed as a whole or not at all
+	t.registered = present
+	with := map[string]string{}
+	for k, v := range w.committed {
+		with[k] = v
+	}
+	if op == "commit" && !t.ro {
+		for k, v := range t.overlay {
+			if v == nil {
+				delete(with, k)
+			} else {
+				with[k] = *v
+			}
+		}
+	}
+	dWithout, dWith := w.stateDiff(w.committed), w.stateDiff(with)
+	how := op + "_with_dead_ctx"
+	switch {
+	case dWith == "" && (dWithout != "" || ok):
+		// took effect (or there was nothing to write)
+		if op == "commit" && !t.ro {
+			w.applyOverlay(t)
+			if len(t.overlay) > 0 && dWithout != "" {
+				w.commits++
+				if !ok {
+					w.counters["dead_ctx_commit_reported_failure_but_applied"]++
+				}
+			}
+			t.commitsSince = w.commits
+			how = "commit"
+		}
+	case dWithout == "":
+		if ok && op == "commit" && !t.ro && len(t.overlay) > 0 {
+			w.fail("state_mismatch_after:commit_with_dead_ctx:reported_success", "CommitTransaction with a %s context reported success but the transaction's writes are not visible: %s", ctxKind, dWith)
+		}
+	default:
+		w.fail("state_mismatch_after:"+how, "after %s with a %s context the database matches neither 'applied' (%s) nor 'not applied' (%s)", op, ctxKind, dWith, dWithout)
+	}
+	t.state = stDone
+	t.rec.how = how
+	w.released(how, t)
+	w.settle()
 }
 
 func (w *world) finish(t *txn, op string, keep bool) {
@@ -1375,6 +1613,7 @@ func (w *world) doBadGet(s Step) {
 // ---- epilogue and probe ----------------------------------------------------
 
 func (w *world) finishEverything() {
+	deadTried := map[*txn]bool{}
 	for guard := 0; guard < 1000; guard++ {
 		w.settle()
 		act, inf := w.holders()
@@ -1386,6 +1625,21 @@ func (w *world) finishEverything() {
 		}
 		t := act[0]
 		mode := w.c.End
+		if strings.HasSuffix(mode, "_dead_ctx") {
+			if t.path == "svc" && t.state == stOpen && !deadTried[t] {
+				// the client sends its last request and hangs up
+				deadTried[t] = true
+				w.finishDeadCtx(t, strings.TrimSuffix(mode, "_dead_ctx"), "cancelled")
+				if w.abort {
+					return
+				}
+				continue
+			}
+			mode = "conn" // whatever is left open after that is the server's to reap
+			if t.state == stOpen && t.path == "svc" {
+				t.state = stGone
+			}
+		}
 		if t.path == "direct" {
 			mode = "rollback"
 		}
